@@ -24,7 +24,11 @@ META = {
             "open_session, auth_password, accept(None), accept(5), global_request(wait), renegotiate_keys, start_client) x "
             "loss in {peer close, stream EOF, EOF mid-packet, local close, packet with a bad MAC} x timing {blocked before, "
             "racing within delay bound 1/2, issued after} x channel timeout {None, 3.0}; plus a transport over a "
-            "ProxyCommand whose process exits; plus every API x local close while the victim's transport thread is "
+            "ProxyCommand whose process exits; plus [loss at every point inside the call] every API x loss {local close, "
+            "stream EOF} (thorough: all five) with the loss and the system's whole reaction landing while the caller "
+            "stands at its k-th point, k = 1..(number of points of the call), a point being every source line of "
+            "channel.py and of the blocking Transport/AuthHandler APIs and every synchronisation operation; "
+            "plus every API x local close while the victim's transport thread is "
             "busy inside an application callback (x11 handler on the client, check_channel_exec_request on the "
             "server; timing before [quick] / racing / after). The call must return or raise within 3 virtual seconds of the loss (or "
             "by its own timeout) and the transport must become inactive.",
@@ -38,6 +42,20 @@ APIS = ["recv", "recv_stderr", "send_zero_window", "sendall_zero_window", "exec_
         "start_client"]
 LOSSES = ["peer_close", "sock_eof", "eof_mid_packet", "local_close", "bad_mac"]
 GRACE = 3.0
+
+
+# at-point timing: every source line of the blocking APIs' own code is a point at which the caller can stand
+# when the connection ends (their liveness checks read flags without a lock, so synchronisation operations
+# alone do not delimit the windows)
+import paramiko.channel as _pch      # noqa: E402
+import paramiko.transport as _ptr    # noqa: E402
+import paramiko.auth_handler as _pah  # noqa: E402
+POINT_TRACE = {
+    _pch.__file__: None,
+    _ptr.__file__: {"open_channel", "open_session", "accept", "global_request", "renegotiate_keys", "start_client",
+                    "auth_password", "_send_user_message", "send_ignore"},
+    _pah.__file__: {"wait_for_response", "auth_password", "_request_auth"},
+}
 
 
 def victim_of(api):
@@ -205,6 +223,24 @@ def make_body(scn):
             lt.start()
             lt.join()
             s.branching = False
+        elif timing.startswith("at-point-"):
+            # the loss - and the system's complete reaction to it - lands while the caller stands at its k-th
+            # scheduling point (lock / event / condition / socket operation) inside the call
+            k = int(timing.rsplit("-", 1)[1])
+            th._vt_freeze_at = k
+            s.line_points = True
+            th.start()
+            s.quiesce()
+            s.line_points = False
+            out["frozen_at_point"] = bool(th._vt_rec.frozen)
+            if not th._vt_rec.frozen:
+                out["call_has_fewer_points"] = True
+            lose()
+            s.quiesce()
+            s.advance(1.0)
+            s.quiesce()
+            out["t_loss"] = S.now()
+            s.thaw(th._vt_rec)
         else:  # after
             lose()
             s.quiesce()
@@ -326,6 +362,40 @@ def run_items(items, acc):
         if len(acc.samples) < 3 and seen:
             acc.sample({"scenario": dict(zip(("api", "loss", "timing", "channel_timeout", "callers", "transport_thread_busy"), scn)),
                         "schedules": res.executions, "outcomes(kind,exception,was_blocked)": sorted(map(list, seen), key=repr)})
+
+
+def run_points(items, acc):
+    """timing 'at-point-k' for k = 1, 2, ... until the call completes before its k-th point: one execution per
+    point of the call (no branching: the loss and the system's whole reaction are one atomic environment step
+    while the caller is held at that point)."""
+    from vmc import install
+    for tier, api, loss in items:
+        npoints = 0
+        outcomes = set()
+        for k in range(1, 600):
+            scn = (api, loss, "at-point-%d" % k, None)
+            ex = S.run_once(make_body(scn), horizon=S.EPOCH + 4000, step_budget=3_000_000, trace_files=POINT_TRACE)
+            install.cleanup_after_execution()
+            acc.ev()
+            o = ex.value if ex.outcome == "ok" else {}
+            if ex.outcome == "ok" and not o.get("frozen_at_point"):
+                break
+            npoints = k
+            acc.nt((api, loss, "at-point", k))
+            outcomes.add((ex.outcome, o.get("kind"), o.get("exc")))
+            v = judge(scn, ex)
+            if v is not None:
+                acc.violation("%s:%s:%s:loss-lands-at-a-point-inside-the-call" % (v[0], api, loss),
+                              {"scn": scn, "why": v[1], "point": k, "observed": o or None},
+                              {"scn": scn, "choices": [], "bound": 0, "points": True})
+        else:
+            acc.note("cap 600 points hit for %s/%s" % (api, loss))
+        acc.count("at_point_scenarios")
+        acc.count("at_point_executions", npoints)
+        acc.cmax("max_points_inside_one_call", npoints)
+        if len(acc.samples) < 5:
+            acc.sample({"scenario": {"api": api, "loss": loss, "timing": "loss lands at every point inside the call"},
+                        "points_inside_the_call": npoints, "outcomes(outcome,kind,exception)": sorted(map(list, outcomes), key=repr)})
 
 
 # ------------------------------------------------------------------ ProxyCommand
@@ -463,13 +533,19 @@ def main(tier):
     from vmc import enum
     ck = core.Check(PID, tier, "fault_enumeration",
                     "scenario = blocking API x loss kind x timing x channel timeout; racing timing explored over all "
-                    "schedules within the delay bound (1 quick / 2 thorough); nontrivial = distinct (scenario, outcome) "
+                    "schedules within the delay bound (1 quick / 2 thorough); at-point timing: one execution per point "
+                    "(source line / synchronisation operation) of the call; nontrivial = distinct (scenario, outcome) "
                     "where the call was really blocked / racing / issued after the loss",
                     ["virtual time; grace = 3 virtual seconds", "delay bounding", "ProxyCommand over a stub process object"])
     scns = [(tier, x) for x in scenarios(tier)]
     ck.extra["scenarios"] = len(scns)
     ck.merge(core.pmap(enum.chunks(scns, 96), run_items))
     ck.merge(core.pmap([["exit-idle"], ["exit-after-banner"], ["exit-mid-banner"]], run_proxy))
+    pl = ("local_close", "sock_eof") if tier == "quick" else LOSSES
+    pts = [[(tier, api, loss)] for api in APIS for loss in pl
+           if not (api == "start_client" and loss in ("peer_close", "bad_mac", "local_close"))]
+    ck.extra["at_point_scenarios"] = len(pts)
+    ck.merge(core.pmap(pts, run_points))
     for n in ck.acc.notes:
         ck.cap_hit(n)
     return ck.finish()
@@ -482,6 +558,11 @@ def replay(rec):
         print(ex.outcome, ex.error, ex.value)
         return 1 if (ex.outcome != "ok" or ex.value.get("blocked_after_grace") or ex.value.get("active_after")) else 0
     scn = tuple(r["scn"])
+    if r.get("points"):
+        ex = S.run_once(make_body(tuple(r["scn"])), horizon=S.EPOCH + 4000, step_budget=3_000_000,
+                        trace_files=POINT_TRACE)
+        print(ex.outcome, ex.error, ex.value)
+        return 1 if judge(tuple(r["scn"]), ex) is not None else 0
     ex = explore.replay(make_body(scn), r["choices"], "delay", {"horizon": S.EPOCH + 4000, "step_budget": 3_000_000})
     print(ex.outcome, ex.error, ex.value)
     v = judge(scn, ex)
